@@ -49,6 +49,31 @@ use uplink::{ConnectionId, ReaderHandle, create_uplink_channel, sync_readers};
 use crate::config::DynamicConfig;
 use crate::stats::SharedStats;
 
+/// Verification hooks: re-exports of the otherwise private event-loop arms so
+/// an external harness can drive them in a generated schedule.
+#[cfg(feature = "verif-hooks")]
+#[allow(unused_imports, dead_code)]
+pub mod verif_hooks {
+    pub use super::connections::reconnect_uplink;
+    pub use super::housekeeping::handle_housekeeping;
+    pub use super::packet_handler::{
+        flush_all_batches, forward_via_connection, handle_srt_packet, handle_uplink_packet,
+        process_connection_events,
+    };
+    pub use super::reload::{IpReload, ReloadRefusal, analyze_ip_reload, analyze_ip_reload_text};
+    pub use super::uplink::{ReaderHandle, UplinkPacket, create_uplink_channel};
+
+    /// Thin wrapper: the original is `pub(crate)`.
+    pub fn attribute_nak(
+        connections: &mut [srtla_core::connection::SrtlaConnection],
+        seq_tracker: &super::SequenceTracker,
+        nak: u32,
+        current_time_ms: u64,
+    ) -> Option<usize> {
+        super::packet_handler::attribute_nak(connections, seq_tracker, nak, current_time_ms)
+    }
+}
+
 pub const HOUSEKEEPING_INTERVAL_MS: u64 = 1000;
 const STATUS_LOG_INTERVAL_MS: u64 = 30_000;
 
